@@ -704,23 +704,40 @@ def check_initial_stack(ctx, fb, prog, rule="R03.6"):
     cf, ok, npaths = setup_outcomes(fb, prog)
     wit = [o for o in ok if sigver_of(o) in (1, 2, 3)]
     ctx.site(len(wit))
-    bad_items, bad_count = [], []
+    bad_items, bad_count, bad_limit = [], [], []
     for o in wit:
         st = o.heap.get((THIS, "stack"))
         sv = sigver_of(o)
         ok_shape = isinstance(st, tuple) and st[:2] == ("ap", "loopvar") and isinstance(st[3], tuple) and st[3][:2] == ("ap", "mut:push_back")
-        if not ok_shape:
-            bad_items.append((sv, symx.show(st)[:80] if st is not None else "not filled in configure_tx_txin (the items are handed on as text)"))
-            continue
-        item = st[3][3]
-        if not (isinstance(item, tuple) and item[:2] == ("ap", "[]") and from_witness(item[2]) and base_stack(item[2]) == item[2]):
-            bad_items.append((sv, symx.show(item)[:80]))
-            continue
-        W = item[2]
-        key = st[2]
-        bound = None
-        if isinstance(key, tuple) and key[:2] == ("ap", "while") and isinstance(key[2], tuple) and key[2][:2] == ("ap", "<"):
-            bound = key[2][3]
+        W = bound = None
+        if isinstance(st, tuple) and st[:2] == ("ap", "mut:insert") and len(st) == 6 and isinstance(st[4], tuple) and st[4][:2] == ("ap", "m:begin") and st[3] == ("ap", "m:end", st[2]):
+            # the range form: stack.insert(stack.end(), W.begin(), W.begin() + n) copies the first n items as they are
+            W0 = st[4][2]
+            if from_witness(W0) and base_stack(W0) == W0:
+                W = W0
+                bound = symx.lin_add(st[5], st[4], -1)
+        if W is None:
+            if not ok_shape:
+                bad_items.append((sv, symx.show(st)[:80] if st is not None else "not filled in configure_tx_txin (the items are handed on as text)"))
+                continue
+            item = st[3][3]
+            if not (isinstance(item, tuple) and item[:2] == ("ap", "[]") and from_witness(item[2]) and base_stack(item[2]) == item[2]):
+                bad_items.append((sv, symx.show(item)[:80]))
+                continue
+            W = item[2]
+            key = st[2]
+            if isinstance(key, tuple) and key[:2] == ("ap", "while") and isinstance(key[2], tuple) and key[2][:2] == ("ap", "<"):
+                bound = key[2][3]
+        # the limits ExecuteWitnessScript applies are limits of the *initial stack*: an item-size test decided on this path is about
+        # the items of the session stack (or the first `bound` witness items), not about the whole witness - the witness script and
+        # the control block may be larger than an element
+        if sv in (1, 3):
+            for (t_, v_) in o.conds:
+                if isinstance(t_, tuple) and t_[:2] == ("ap", "<") and len(t_) == 4 and symx.is_const(t_[2]) and isinstance(t_[3], tuple) and t_[3][:2] == ("ap", "m:size") \
+                        and isinstance(t_[3][2], tuple) and t_[3][2][0] == "elem":
+                    cont = t_[3][2][1]
+                    if not symx.contains(cont, ("f", THIS, "stack")) and from_witness(cont):
+                        bad_limit.append((sv, t_[2][1], symx.show(cont)[:70]))
         if sv in (2, 3):
             annex = exec_field(o, "m_annex_present")
             k = (2 if sv == 3 else 0) + (1 if annex == C(1) else 0)
@@ -733,6 +750,9 @@ def check_initial_stack(ctx, fb, prog, rule="R03.6"):
     ctx.inst(not bad_items, rule, "witness-items-verbatim", cf.loc(), "on all %d accepting witness paths the initial stack is filled with the witness items themselves" % len(wit),
              "the witness items do not reach the session's stack as they are: %s - an item whose hex rendering consists of decimal digits only (a signature like 300602010102010101) is re-read as a number" %
              (("script version %s: %s" % bad_items[0]) if bad_items else ""))
+    ctx.inst(not bad_limit, rule, "element-limit-on-the-initial-stack", cf.loc(), "the element-size limit decided at set-up is about the items of the session's stack",
+             "with script version %s the %s-byte element limit is applied to every item of `%s` - the whole witness, script and control block included: a P2WSH witness script of 521-10,000 bytes, or a control block with 16 or more path nodes, is refused although consensus exempts them"
+             % (bad_limit[0] if bad_limit else ("", "", "")))
     ctx.inst(not bad_count, rule, "initial-stack-excludes-annex-control-script", cf.loc(), "the number of items pushed is the size of the witness stack after removing annex, control block and script",
              "with script version %s and annex present = %s the session is given %s witness items: the annex (or control block / script) is pushed as an argument - a key-path spend with an annex then checks the annex as the signature" %
              (bad_count[0] if bad_count else ("", "", "")))
